@@ -20,6 +20,9 @@
 #include <amgcl/value_type/static_matrix.hpp>
 #include <amgcl/reorder/cuthill_mckee.hpp>
 #include <amgcl/coarsening/tentative_prolongation.hpp>
+#ifdef AMGSIM_TRACE
+#include "../sim/trace.hpp"
+#endif
 #include "harness_main.hpp"
 
 const char *CHECK_ID = "C09";
@@ -319,6 +322,13 @@ Plan generate(uint64_t seed, uint64_t run, bool thorough) {
     p.set("cross_switch", r.chance(0.05) ? 1 : 0, 0);      // occasionally compare across the 16/17 SpGEMM switch
     draw_schedule(r, p.sched, (int)p.get("nt"));
     p.sched.max_decisions = 2000000000ULL;      // long non-converging solves at 32 threads are legitimate; the wall-clock watchdog bounds them
+#ifdef AMGSIM_TRACE
+    // trace flavour: every instrumented access inside a parallel region is a possible preemption point
+    { static const double pp[] = { 0, 1e-4, 1e-3, 1e-2, 5e-2 }; p.sched.preempt_p = pp[r.below(5)]; if (p.sched.preempt_p > 0 && p.sched.strategy == sim::CANONICAL) p.sched.strategy = sim::RANDOM; }
+    if (p.get("n") > 150) p.set("n", 20 + p.get("n") % 130, 1);
+    if (p.get("nt") > 8 && r.chance(0.7)) p.set("nt", 4 + p.get("nt") % 5, p.get("nt") >= 4 ? 4 : 2);
+    p.set("maxiter", std::min<long>(p.get("maxiter"), 15), 1);
+#endif
     return p;
 }
 
@@ -440,7 +450,14 @@ Result execute(const Plan &p) {
     if (nt >= 17 && !cross) nt_ref = 17;
     Output oref, otest, osecond;
     sim::RunStatus s0 = world(nt_ref, canonical(), [&]() { oref = run_component(w); });
+#ifdef AMGSIM_TRACE
+    simtrace::reset();
+    sim::RunStatus s1 = world(nt, p.sched, [&]() { simtrace::enable(true); otest = run_component(w); simtrace::enable(false); });
+    std::vector<simtrace::Conflict> cands = simtrace::conflicts();
+    res.micro += simtrace::accesses();
+#else
     sim::RunStatus s1 = world(nt, p.sched, [&]() { otest = run_component(w); });
+#endif
     sim::SchedConfig alt = canonical(); alt.strategy = (p.sched.strategy == sim::REVERSE) ? sim::CANONICAL : sim::REVERSE;
     sim::RunStatus s2 = world(nt, alt, [&]() { osecond = run_component(w); });
     res.absorb(s0); res.absorb(s1); res.absorb(s2);
@@ -472,6 +489,32 @@ Result execute(const Plan &p) {
             res.counts["ilu_parallel_path"]++;
         }
     }
+#ifdef AMGSIM_TRACE
+    // happens-before candidates are confirmed by their effect: the world is re-run with the two accesses forced into the
+    // opposite order; only a changed result is a violation (the property is about results), the rest is counted as benign
+    if (!s1.status) for (size_t ci = 0; ci < cands.size() && ci < 3; ++ci) {
+        const simtrace::Conflict &c = cands[ci];
+        res.counts["conflict_candidates"]++;
+        simtrace::Directive d; d.active = true; d.region = c.a.region; d.hold_tid = c.a.tid; d.hold_index = c.a.index; d.until_tid = c.b.tid; d.until_index = c.b.index;
+        Output orev; simtrace::reset(); simtrace::set_directive(d);
+        sim::SchedConfig ds = p.sched; ds.preempt_p = 0; ds.strategy = sim::EXPLICIT; ds.deviations = s1.deviations;
+        sim::RunStatus sr = world(nt, ds, [&]() { simtrace::enable(true); orev = run_component(w); simtrace::enable(false); });
+        simtrace::Directive dst = simtrace::directive_state();
+        res.absorb(sr); res.micro += simtrace::accesses();
+        if (sr.status) { res.fail(mk("world-terminates", w, "directed-rerun", "", sr.blocked)); continue; }
+        if (!dst.released || dst.gave_up) { res.counts["conflict_order_not_enforceable"]++; continue; }
+        Result tmp; compare(tmp, w, otest, orev, true, true, "directed-order", nt, nt);
+        if (!tmp.v.empty()) {
+            Violation v = mk("race-changes-result", w, "unordered-conflicting-accesses", tmp.v[0].sigval("item"),
+                fmt("accesses at %s (%s, thread %d) and %s (%s, thread %d) to address 0x%lx are not ordered by a barrier / critical section; forcing the opposite order changes the result: %s",
+                    simtrace::describe(c.a.pc).c_str(), c.a.write ? "write" : "read", c.a.tid, simtrace::describe(c.b.pc).c_str(), c.b.write ? "write" : "read", c.b.tid, (unsigned long)c.addr, tmp.v[0].detail.c_str()));
+            res.fail(v);
+        } else res.counts["benign_conflict"]++;
+    }
+    simtrace::reset();
+    res.counts["traced_worlds"]++;
+    if (p.sched.preempt_p > 0) res.faults["access_level_preemption"] += s1.deviations.size();
+#endif
     if (nt > 16 && (w.comp == C_PRODUCT || w.comp == C_HIER || w.comp == C_SOLVE)) res.counts["spgemm_rmerge_path"]++;
     res.counts[std::string("comp_") + comp_name[w.comp]]++;
     res.nontrivial = nt >= 2 && !s1.deviations.empty() && w.A.n >= 2;
